@@ -6,7 +6,7 @@ BASE = [('S', 'PID'), ('S', 'PID')]
 EXTRA = [('F', n) for n in ['PID_3', 'PID_3', 'PID_3', 'PID_8', 'PID_8', 'PID_1', 'NK1_2', 'PID_5', 'PID_5']] + \
         [('M', 'ADT_A01'), ('G', 'ADT_A01_INSURANCE'), ('S', 'IN1'), ('S', 'IN1'), ('S', 'EVN'), ('F', 'IN1_2'), ('G', 'ADT_A01_PROCEDURE'), ('S', 'PR1')]
 ERR = {'ChildNotValid': 'ChildNotValid', 'MaxChildLimitReached': 'MaxChildLimitReached', 'OperationNotAllowed': 'OperationNotAllowed',
-       'ValueError': 'crash', 'Crash:IndexError': 'crash', 'Crash:AttributeError': 'crash', 'ChildNotFound': 'ChildNotValid'}
+       'ValueError': 'crash', 'Crash:IndexError': 'crash', 'Crash:AttributeError': 'crash', 'Crash:KeyError': 'crash', 'ChildNotFound': 'ChildNotValid'}
 
 
 def gen(rng, n):
@@ -32,6 +32,12 @@ def gen(rng, n):
     def listed(p):
         g = guess.get(p)
         return rng.choice(g) if g and rng.random() < .75 else kid()
+    if rng.random() < .5:
+        # start from a populated parent whose same-named children are interleaved with others (replacement must keep every position)
+        p0 = rng.randrange(2)
+        for c in rng.sample(range(2, 11), rng.randrange(3, 8)):
+            ops.append(('A', p0, c))
+            guess.setdefault(p0, []).append(c)
     for _ in range(n):
         p, c, k = par(), kid(), rng.random()
         if k < .3:
